@@ -837,6 +837,8 @@ func (w *vpWorld) classify(r *vpResp) string {
 		return "upstream"
 	case r.Status == 202:
 		return "accepted"
+	case (r.Status == 200 || r.Status == 401 || r.Status == 403) && vpSignInMarker.Match(r.Body):
+		return "signin" // the sign-in page, whatever status it is served with
 	case r.Status == 302 || r.Status == 301 || r.Status == 307 || r.Status == 308:
 		if strings.HasPrefix(r.Location, w.idp.issuer()+"/authorize") {
 			return "idp_redirect"
